@@ -686,6 +686,37 @@ fn add_contradiction(r: &mut Rng, p: &mut Program, binary: bool) -> bool {
         return false;
     }
     let ui = *r.pick(&cands);
+    if r.chance(1, 6) {
+        // a date outside what MySQL can represent is offered for a DATE / DATETIME column; the
+        // library may refuse or accept it; the rest of the row and of the response must be intact
+        if let Unit::Rows(ru) = &mut p.units[ui] {
+            let row = r.usize_below(ru.rows.len());
+            let col = r.usize_below(ru.cols.len());
+            let year = *r.pick(&[-1i32, -4000, 65_536, 70_000, 200_000, 10_000, 65_535]);
+            let datetime = r.coin();
+            ru.cols[col].coltype = if datetime { *r.pick(&[0x0cu8, 0x07]) } else { 0x0a };
+            ru.cols[col].flags &= !0x01;
+            for rw in ru.rows.iter_mut() {
+                rw[col] = if datetime {
+                    Cell::DateTime(2000 + r.below(30) as i32, 1 + r.below(12) as u32, 1 + r.below(28) as u32, r.below(24) as u32, r.below(60) as u32, r.below(60) as u32, if r.coin() { 0 } else { r.below(1_000_000) as u32 })
+                } else {
+                    Cell::Date(1990 + r.below(60) as i32, 1 + r.below(12) as u32, 1 + r.below(28) as u32)
+                };
+            }
+            let alt = if datetime {
+                Cell::DateTime(year, 12, 31, 23, 59, 58, if r.coin() { 0 } else { 999_999 })
+            } else {
+                Cell::Date(year, 2, 28)
+            };
+            ru.write_row = false;
+            ru.contra = Some(Contra::OfferedMaybe {
+                row: row as u32,
+                col: col as u32,
+                alt,
+            });
+        }
+        return true;
+    }
     if r.chance(1, 3) {
         // a value that is refused, after which the shim simply carries on with the real one:
         // the response must be exactly what the program describes
